@@ -49,7 +49,13 @@
   RelExchangeBatch.lean, RelExchangeBatchLoops.lean, RelExchangeBatchSpec.lean).  `exchangeBatch` with
   callback `nil`, no observers, an uncached filter with typed relation constraints, in a `TInv` world:
 
-  * `batch_normal_form` — `Lock`, table selection, lookup loop, move loop, `Unlock`;
+  * `batch_normal_form_planFirst` — table selection, lookup loop, `Lock`, move loop, `Unlock`: the
+    order in which the batch runs since the repair of defect D27 (the lock is taken only after the
+    lookup loop, so that a panic of that loop leaves the lock state as it was:
+    `batch_lookup_panic`, and Ark/Props/C07Batch.lean); `batch_normal_form` — `Lock`, table
+    selection, lookup loop, move loop, `Unlock` (the order before the repair): still an equation
+    of the operation when the lookup loop succeeds, because selection and lookup loop neither
+    read nor write the lock; the specifications below are proved from it;
   * `batch_spec` — for a valid call (`XchgPreM` on the mask of every non-empty selected table) the
     batch never fails, keeps `TInv`, and every entity in the rows of the selected tables gets
     `Exchange(add, rem, rels)` (`XchgAllPost`); nobody else changes;
@@ -491,7 +497,17 @@ example :
 section Batch
 open Ark.QueryRel
 
-/-- the batch in normal form -/
+/-- the batch in normal form, in the order in which it runs (since the repair of defect D27) -/
+theorem batch_normal_form_planFirst : type_of% @exchangeBatch_rel_eq_planFirst :=
+  @exchangeBatch_rel_eq_planFirst
+
+/-- a panic of the lookup loop is the batch's panic, with the same state: the lock has not been
+    taken -/
+theorem batch_lookup_panic : type_of% @exchangeBatch_rel_findLoop_panic :=
+  @exchangeBatch_rel_findLoop_panic
+
+/-- the batch in normal form with `Lock` first (equivalent when the lookup loop succeeds: it
+    neither reads nor writes the lock) -/
 theorem batch_normal_form (run : ProbeRunner) (fo : FilterObj) (extra : List RelID)
     (add rem : List Comp) (rels : List RelID) (w : World) (hl : w.isLocked = false)
     (hne : (add.isEmpty && rem.isEmpty) = false) {l' : Lock} {b : Nat}
